@@ -14,13 +14,13 @@ structure WInv (w : Wake) : Prop where
   /-- before `poll` the queue holds only what `_checkCommandsToApply` left itself and what was put since -/
   queueLe : w.phase = .poll → w.queue.items.length ≤ w.leftover + w.sinceProc
 
-theorem winv_init (m cap : Nat) (ro : Bool) (h : 0 < cap) : WInv (Wake.init m cap ro) := by
+theorem winv_init (m cap : Nat) (ro : Nat) (h : 0 < cap) : WInv (Wake.init m cap ro) := by
   refine ⟨h, ?_, ?_, ?_, ?_⟩ <;> simp [Wake.init]
 
-theorem step_cap (w : Wake) (l : WLabel) : (w.step l).1.cap = w.cap ∧ (w.step l).1.readOnce = w.readOnce := by
+theorem step_cap (w : Wake) (l : WLabel) : (w.step l).1.cap = w.cap ∧ (w.step l).1.chunk = w.chunk := by
   cases l with
   | put v => simp only [Wake.step]; split <;> simp
-  | notify => simp [Wake.step]
+  | notify acc => simp [Wake.step]
   | process k => simp [Wake.step]
   | poll => simp only [Wake.step]; split <;> simp
 
@@ -41,12 +41,13 @@ theorem winv_step {w : Wake} (hi : WInv w) (l : WLabel) : WInv (w.step l).1 := b
       · intro hp; have := h2 hp; simp only; omega
       · intro hp; have := h3 hp; simp only; omega
       · intro hp; have := h4 hp; simp only [hl]; omega
-  | notify =>
+  | notify acc =>
     simp only [Wake.step, pipeNotify]
-    by_cases hlt : w.pipe < w.cap
+    by_cases hlt : w.pipe = 0 ∨ (acc = true ∧ w.pipe < w.cap)
     · simp only [hlt, ↓reduceIte]
       refine ⟨h0, by dsimp only; omega, by intro hp; dsimp only at hp; omega, h3, h4⟩
     · simp only [hlt, ↓reduceIte]
+      have : w.pipe ≠ 0 := fun e => hlt (Or.inl e)
       refine ⟨h0, h1, by intro hp; dsimp only at hp; omega, h3, h4⟩
   | process k =>
     simp only [Wake.step]
@@ -70,7 +71,7 @@ theorem winv_run {w : Wake} (hi : WInv w) (ls : List WLabel) : WInv (w.run ls).1
 theorem step_no_error (w : Wake) (l : WLabel) : (w.step l).2 ≠ .error := by
   cases l with
   | put v => simp only [Wake.step]; split <;> simp
-  | notify => simp only [Wake.step, pipeNotify]; split <;> simp
+  | notify acc => simp only [Wake.step, pipeNotify]; split <;> simp
   | process k => simp [Wake.step]
   | poll => simp only [Wake.step]; split <;> simp
 
